@@ -24,6 +24,7 @@ class D(HasTraits):
     x = Int(1)
     other = Int(2)
     pre_x = Int(3)
+    px = Int(9)
     d_x = Int(4)
     q_x = Int(5)
     y = Int(6)
@@ -34,7 +35,7 @@ class D(HasTraits):
         return "D#%s" % self.__dict__.get("_n", "?")
 
 
-ATTRS = ("x", "other", "pre_x", "d_x", "q_x", "y", "pre_y", "d_y")
+ATTRS = ("x", "other", "pre_x", "d_x", "q_x", "y", "pre_y", "d_y", "px")
 
 
 class DF(D):
@@ -57,6 +58,7 @@ STYLES = {
     "same": ("x", "", lambda cp: "x"),
     "explicit": ("y", "other", lambda cp: "other"),
     "pre": ("x", "pre_*", lambda cp: "pre_x"),
+    "p1": ("x", "p*", lambda cp: "px"),            # a ONE-character prefix before the star
     "star": ("x", "*", lambda cp: cp + "x"),
 }
 KINDS = {"del": DelegatesTo, "proto": PrototypedFrom}
@@ -114,7 +116,7 @@ def strategy(tier):
     return st.fixed_dictionaries({
         "kind1": st.sampled_from(["del", "proto"]),
         "class_prefix": st.sampled_from(["d_", "d_", "q_", "pre_"]),
-        "style1": st.sampled_from(["same", "explicit", "pre", "star"]),
+        "style1": st.sampled_from(["same", "explicit", "pre", "star", "p1"]),
         # second hop: same deferral kind as the first (mixed-kind chains: the statement does not say where a write lands)
         "chain": st.sampled_from([None, None, "same", "explicit"]),
         "ops": st.lists(OP, min_size=1, max_size=20),
